@@ -16,7 +16,7 @@ with tempfile.TemporaryDirectory() as d:
     passed = set()
     failed = set()
     for tc in ET.parse(xmlp).getroot().iter("testcase"):
-        name = f"{tc.get('classname')}::{tc.get('name')}"
+        name = f"{tc.get('classname')}::{tc.get('name')}".replace(os.path.abspath(repo) + "/", "/repo/")
         bad = any(ch.tag in ("failure", "error", "skipped") for ch in tc)
         (failed if bad else passed).add(name)
 missing = sorted(stable - passed)
